@@ -252,6 +252,22 @@ def check_apply(ns, c, local):
             d = sym((2, F), name='d', ld='f8')      # accumulated data: two feature vectors
             st.accumulate(d, axis=-1)
             s1, s2, cnt = _stats_spec(d, -1)
+            if decide(z3.Bool('interleaved')):
+                # apply, then accumulate one more feature VECTOR, then apply again: the transform uses all vectors
+                # accumulated so far (nothing derived from the statistics may be remembered across accumulate calls)
+                with warnings.catch_warnings():
+                    warnings.simplefilter('ignore')
+                    try:
+                        st.apply(sym(shape, name='x', ld=ld), axis=axis, in_place=False)
+                    except Exception as e:
+                        symex.guard(e)
+                        return ('exception', 'first apply: %s: %s' % (type(e).__name__, e))
+                v = sym((F,), name='v', ld='f8')
+                st.accumulate(v)
+                vo = v.raw()
+                s1 = [s1[j] + vo[j] for j in range(F)]
+                s2 = [s2[j] + vo[j] * vo[j] for j in range(F)]
+                cnt = cnt + 1
         else:
             s1, s2, cnt = _stats_spec(x0, axis) if r > 1 else (None, None, 0)
         with warnings.catch_warnings(record=True) as wl:
@@ -294,8 +310,9 @@ def check_apply(ns, c, local):
     for ctx, out in explore(body, max_paths=200):
         if out is None:
             continue
+        inter = z3.is_true(ctx.model().eval(z3.Bool('interleaved'), True)) if not local else False
         if out[0] in ('exception', 'dtype', 'shape', 'input modified'):
-            return dict(c, what='%s %s' % (out[0], out[1] if len(out) > 1 else ''))
+            return dict(c, what='%s %s' % (out[0], out[1] if len(out) > 1 else ''), interleaved=inter)
         if out[0] == 'cmp':
             pairs = [(z3.simplify(rq(a), som=True), z3.simplify(rq(b), som=True)) for a, b in out[1]]
             pairs = [(a, b) for a, b in pairs if not a.eq(b)]
@@ -318,7 +335,7 @@ def check_apply(ns, c, local):
                     extra.append(z3.Implies(v >= 0, z3.And(app * app == v, app >= 0)))
                 rr, s2 = symex.nra_check([goal] + extra, timeout_ms=100000)
                 if rr == 'sat':
-                    return dict(c, what='values differ from (x - mean) * rho', values=_model_values(s2.model()))
+                    return dict(c, what='values differ from (x - mean) * rho', values=_model_values(s2.model()), interleaved=inter)
                 if rr == 'unsat':
                     continue
             if rr != 'unsat':
@@ -347,7 +364,7 @@ def _model_values(m):
     vals = {}
     for d in m.decls():
         n = d.name()
-        if d.arity() == 0 and (n.startswith('x_') or n.startswith('d_')):
+        if d.arity() == 0 and (n.startswith('x_') or n.startswith('d_') or n.startswith('v_')):
             v = m[d]
             try:
                 vals[n] = float(v.as_fraction()) if z3.is_rational_value(v) else float(v.approx(20).as_fraction())
@@ -454,6 +471,13 @@ def _replay_apply(w, vals):
         if w['kind'] == 'apply':
             d = np.array([[vals.get('d_%d_%d' % (i, j), 0.0) for j in range(F)] for i in range(2)])
             st.accumulate(d, axis=-1)
+            if w.get('interleaved'):
+                with warnings.catch_warnings():
+                    warnings.simplefilter('ignore')
+                    st.apply(x.copy(), axis=axis, in_place=False)
+                v = np.array([vals.get('v_%d' % j, 1.0 + j) for j in range(F)])
+                st.accumulate(v)
+                d = np.concatenate([d, v[None]], 0)
             mu, var = d.mean(0), (d ** 2).mean(0) - d.mean(0) ** 2
         else:
             if r == 1 or all(n == 1 for k, n in enumerate(shape) if k != axis % r):
@@ -568,10 +592,32 @@ def replay(w):
         if w['kind'] == 'apply':
             d = rng.randn(5, F) * 2 + 3
             st.accumulate(d, axis=-1)
+            if w.get('interleaved'):
+                with warnings.catch_warnings():
+                    warnings.simplefilter('ignore')
+                    st.apply(x.copy(), axis=axis, in_place=False)
+                v = rng.randn(F) * 4 - 5
+                st.accumulate(v)
+                d = np.concatenate([d, v[None]], 0)
             mu, var = d.mean(0), (d ** 2).mean(0) - d.mean(0) ** 2
         else:
             if r == 1 or all(n == 1 for k, n in enumerate(shape) if k != axis % r):
-                return {'reproduced': False, 'detail': 'single-vector local case'}
+                # a single vector without statistics: ValueError with norm_var, all zeros (float64) without
+                if not ip:
+                    x.setflags(write=False)
+                try:
+                    with warnings.catch_warnings():
+                        warnings.simplefilter('ignore')
+                        y = st.apply(x, axis=axis, in_place=ip)
+                except ValueError:
+                    return {'reproduced': not nv, 'detail': 'single vector without statistics: ValueError (norm_var=%s)' % nv}
+                if nv:
+                    return {'reproduced': True, 'detail': 'single vector without statistics and norm_var=True did not raise'}
+                if y.dtype != np.float64 or y.shape != orig.shape or np.any(y != 0):
+                    return {'reproduced': True, 'detail': 'single vector (shape %s, %s, in_place=%s) without statistics: result dtype %s, documented float64 zeros' % (shape, ld, ip, y.dtype)}
+                if not (ip and ld == np.float64) and not np.array_equal(x, orig):
+                    return {'reproduced': True, 'detail': 'single vector (shape %s, %s, in_place=%s) without statistics: input modified' % (shape, ld, ip)}
+                return {'reproduced': False, 'detail': 'single-vector local case as documented'}
             xm = np.moveaxis(x.astype(np.float64), axis % r, -1).reshape(-1, F)
             mu, var = xm.mean(0), (xm ** 2).mean(0) - xm.mean(0) ** 2
         if not ip:
